@@ -207,7 +207,7 @@ func run(c *core.Ctx) {
 	}
 	st := a.Observe()
 	bundle, _ := st.CA.CABundle(context.Background(), st.Primary)
-	n := c.N(160, 3000)
+	n := c.N(480, 4000)
 	okGolden, okSigned, mustFail := 0, 0, 0
 	for i := 0; i < n; i++ {
 		if !c.Mine(i) {
